@@ -1,6 +1,6 @@
 """C18 — floats are printed shortest-round-trip in ECMAScript format (DESIGN §5.18: R1, R2)."""
 from ..e2.checklib import Lemma, run_lemmas
-from ..e2.intr_float import FloatIntrinsics, RyuStubIntrinsics, RyuHelperIntrinsics
+from ..e2.intr_float import FloatIntrinsics, RyuStubIntrinsics, RyuHelperIntrinsics, RyuTopIntrinsics
 from ..e2 import run as e2run
 
 FR = ["zz_verif_tape.go", "zz_verif_r.go"]
@@ -29,6 +29,14 @@ def lemmas(tier):
                         desc="the repository's %s = strconv's, both executed from their real code on arbitrary symbolic arguments%s" % (
                             nm, " for every q in -348..347 (each power-of-ten table entry)" if fn == 3 else ""),
                         bound="all argument values in the functions' documented ranges", expect_reach=["R1f.fn"]))
+    ls.append(Lemma("R1t.top", "verifHarness_R1t_Top", ["zz_verif_r1a.go"], intr=RyuTopIntrinsics, stop=STOP_WITH_STRCONV,
+                    opts={"timeout_ms": 60000},
+                    desc="the glue of the repository's ryuFtoaShortest (exact-integer shortcut, bounds, choice of q, exactness flags, admissibility of "
+                         "the lower/upper bound with the mantissa-parity terms, round-up hint, decimal exponent) = strconv.ryuFtoaShortest executed "
+                         "from the toolchain's SSA, on every mantissa and binary exponent at once; helpers = the same uninterpreted functions on both "
+                         "sides (R1f), ryuDigits = an injective recorder of its arguments on both sides",
+                    bound="all mant < 2^53, -1074 <= exp <= 971; helper functions uninterpreted; the digit loops of ryuDigits are not compared",
+                    expect_reach=["R1t.top"]))
     return ls
 
 
